@@ -356,6 +356,26 @@ Proof.
   - rewrite E5. unfold stage_ids. rewrite !filter_app, !remove_N_filter by assumption. reflexivity.
 Qed.
 
+Lemma txq_view_eq s s' : view s' = view s -> txq s -> txq s'.
+Proof. unfold txq. intros ->. auto. Qed.
+
+(** Closing: the transfers not yet started are reported finished and leave the
+    queue together (nothing happens on an endpoint that is already closed). *)
+Lemma txq_close s : txq s -> txq (do_close' s).
+Proof.
+  intros J. destruct (closed s) eqn:Hc.
+  - apply (txq_view_eq s); [|exact J]. unfold view, stage_ids, tmp_id. ep_cbn. rewrite ?Hc. reflexivity.
+  - apply (txq_flush s _ J); unfold stage_ids, tmp_id; ep_cbn; rewrite ?Hc; tr_norm; reflexivity.
+Qed.
+
+Ltac tx_close J :=
+  match goal with |- txq ?Z =>
+    match Z with context[do_close' ?X] =>
+      apply (txq_view_eq (do_close' X) Z);
+      [unfold view, stage_ids, tmp_id; ep_cbn; reflexivity
+      |apply txq_close; first [exact J | view_same J]]
+    end end.
+
 Lemma txq_hm m s r : hm_spec m s r -> txq s -> txq (fst r).
 Proof.
   intros H J. destruct H; has_end_split; cbn [fst].
@@ -395,7 +415,7 @@ Lemma txq_rf f s r : rf_spec f s r -> txq s -> txq (fst r).
 Proof.
   intros H J. destruct H.
   7-9: (apply txq_hm in H; [|exact J]; cbn [fst] in *; try exact H; view_same H).
-  all: view_same J.
+  all: first [solve [view_same J] | tx_close J].
 Qed.
 
 Lemma txq_upd s rest fr : txq s -> txq (s <| rx_buf := rest |> <| handled := handled s ++ [fr] |>).
@@ -454,6 +474,7 @@ Proof.
   all: try (unfold tx_proxy); try (unfold process_queue, send_next); try (unfold send_sess_term).
   all: brk.
   all: try solve [view_same J].
+  all: try solve [tx_close J].
   - (* OSend *)
     assert (Hn : ~ In (next_id s) (map fst (tx_map s))).
     { intros X. apply (q_iff _ J) in X. destruct X as [X _]. apply (q_lt _ J) in X.
